@@ -81,7 +81,7 @@ class Ctx:
     def floor(self, what, count, minimum):
         self.floors.append({'what': what, 'count': count, 'floor': minimum})
         self.counts[what] = count
-        if count < minimum:
+        if count < minimum and not self.only:
             self.internal.append('floor not met: %s = %d < %d (a rule matching too few sites must not pass)' % (what, count, minimum))
 
     # ------------------------------------------------------------ output
